@@ -40,6 +40,16 @@ func typeHasEnum(t *parser.Type, visited map[*parser.Type]bool) bool {
 	return typeHasEnum(t.KeyType, visited) || typeHasEnum(t.ValueType, visited)
 }
 
+func rwctxHasEnum(c *golang.ReadWriteContext) bool {
+	if c == nil {
+		return false
+	}
+	if c.Type.Category == parser.Category_Enum {
+		return true
+	}
+	return rwctxHasEnum(c.KeyCtx) || rwctxHasEnum(c.ValCtx)
+}
+
 func (g *FastGoBackend) genFastRead(w *codewriter, scope *golang.Scope, s *golang.StructLike) {
 	// var conventions:
 	// - p is the var of pointer to the struct going to be generated
@@ -65,7 +75,11 @@ func (g *FastGoBackend) genFastRead(w *codewriter, scope *golang.Scope, s *golan
 	hasEnum := false
 	ff := getSortedFields(s)
 	for _, f := range ff {
-		if typeHasEnum(f.Type, nil) {
+		// look at the resolved read/write context, not at the raw type: a typedef'd
+		// container (typedef map<Color,string> Names) has no KeyType/ValueType of its own
+		if rc, err := g.utils.MkRWCtx(scope, f); err == nil && rwctxHasEnum(rc) {
+			hasEnum = true
+		} else if typeHasEnum(f.Type, nil) {
 			hasEnum = true
 		}
 		if f.Requiredness == parser.FieldType_Required {
